@@ -248,15 +248,8 @@ impl Sim {
     }
 
     pub fn state(&self, q: &[(u32, u32)], qa: &[u32], probe: &[usize]) -> String {
-        let t0 = std::time::Instant::now();
         let own = self.own_rle(q);
-        let t1 = t0.elapsed();
-        let r = self.state_rest(own, qa, probe);
-        if std::env::var("VERIF_TIMING").is_ok() {
-            let n: u64 = q.iter().map(|(a, b)| (b - a + 1) as u64).sum();
-            eprintln!("timing own={:?} n={} rest={:?}", t1, n, t0.elapsed() - t1);
-        }
-        r
+        self.state_rest(own, qa, probe)
     }
     fn state_rest(&self, own: String, qa: &[u32], probe: &[usize]) -> String {
         let bals: Vec<u32> = (0..N).map(|i| self.bal(i)).collect();
